@@ -162,7 +162,7 @@ def r2(c, rec):
     require((phi >= 0).all(), 'phi_1D returned negative density %r' % phi.min())
     exact = np.array([float(S.phi(x, c['gamma'], c['h'], c['nu'], c['theta0'], c['beta'])) for x in xx[1:-1]])
     got = phi[1:-1]
-    ok = exact > 1e-12 * exact.max()
+    ok = (exact > 1e-12 * exact.max()) & (exact > 1e-290)      # not judged in the denormal range, where doubles lose precision
     if not ok.any():
         return
     rel = np.abs(got[ok] / exact[ok] - 1)
@@ -267,10 +267,15 @@ def dt_case(draw):
 def r5(c, rec):
     """The error shrinks in proportion to the time step: successive halvings of the step change the spectrum by amounts in ratio ~2."""
     xx = Numerics.default_grid(c['pts'])
+    if abs(c['gamma']) * c['nu'] > 50:
+        # the equilibrium's boundary layer (width 1/(2 |gamma| nu)) is narrower than the first grid cells at 30-60 points; the
+        # time-step error is then not the leading error term and does not show its asymptotic behaviour at affordable step counts
+        raise Reject('boundary layer not resolved by the grid')
     rec.case(c, c['gamma'] != 0, ['gamma=0' if c['gamma'] == 0 else 'gamma!=0', 'func' if c['as_func'] else 'const'])
     # at least ~40 steps at the coarsest setting (the step is tau * 4 nu for neutral/weak selection, tau/(0.25|gamma|...) otherwise)
     rate = max(0.25 / c['nu'], 0.3 * abs(c['gamma']))
-    tau = c['T'] * rate / 40.0
+    # strong selection makes the problem stiff: the error becomes proportional to the step only at smaller steps
+    tau = c['T'] * rate / (40.0 if abs(c['gamma']) < 10 else 160.0)
     out = []
     for k in range(3):
         with D.timescale(factor=tau / 2 ** k):
@@ -282,8 +287,8 @@ def r5(c, rec):
     d1 = np.abs(out[0] - out[1]).max()
     d2 = np.abs(out[1] - out[2]).max()
     scale = np.abs(out[2]).max()
-    if d1 <= 1e-4 * scale:
-        return
+    if d1 <= 1e-3 * scale:
+        return          # a time-step error below 0.1% of the largest entry cannot be told from the other error terms
     ratio = d1 / d2 if d2 > 0 else float('inf')
     rec.err('halving ratio - 2', abs(ratio - 2))
     require(1.5 <= ratio <= 2.7, 'halving the time step changes the spectrum by %.3e then %.3e: ratio %.2f, expected ~2 for an error proportional to the step'
